@@ -331,9 +331,47 @@ pub fn run(report: &Report, budget: &Budget) {
             report.set(&format!("fixed_tree_{ti}_entries"), json!(t.len()));
         }
     }
+    // One band of more than 10000 hunks (the index then spans two sub-directories): the written
+    // index and the listing of it are in the documented order.
+    let rollover = || {
+        let scratch = Scratch::new("c11roll");
+        let mut t = crate::tree::empty_tree();
+        for d in 0..10 {
+            t.insert(format!("d{d}"), crate::tree::Node::dir(crate::tree::T0 + 2200));
+            for i in 0..1005u32 {
+                t.insert(format!("d{d}/f{i:04}"), crate::tree::Node::file(b"", crate::tree::T0 + 2201));
+            }
+        }
+        let dir = scratch.fresh("src");
+        crate::tree::materialize(&t, &dir);
+        let mut expected: Vec<String> = t.keys().map(|k| crate::tree::apath_of(k)).collect();
+        expected.sort_by(|a, b| apath_cmp(a, b));
+        let arch = scratch.fresh("a");
+        run::do_create_archive(&arch);
+        let out = run::do_backup(&arch, &dir, &BOpts::new(1, 1 << 20, 1 << 20), run::NOHOOK, Flavor::Current);
+        let case = json!({"kind": "c11-rollover"});
+        if out.ok_stats().is_none() {
+            report.violation(&Violation::new("C11:backup-failed", format!("tree of {} entries, one per hunk: {}", t.len(), out.describe())), &case);
+        } else {
+            let idx: Vec<String> = Snap::load(&arch).band_entries(0).into_iter().map(|e| e.apath).collect();
+            if idx != expected {
+                let at = idx.iter().zip(expected.iter()).position(|(a, b)| a != b).unwrap_or(idx.len().min(expected.len()));
+                report.violation(&Violation::new("C11:index-order", format!("tree of {} entries written one per hunk: the index differs from the documented order at position {at} ({} entries read)", t.len(), idx.len())), &case);
+            }
+            let (lo, listed) = run::do_list(&arch, run::Sel::Band(0), "/", &[], run::NOHOOK);
+            let l: Vec<String> = listed.into_iter().map(|e| e.apath).collect();
+            if !lo.clean() || l != expected {
+                let at = l.iter().zip(expected.iter()).position(|(a, b)| a != b).unwrap_or(l.len().min(expected.len()));
+                report.violation(&Violation::new("C11:listing-order", format!("tree of {} entries written one per hunk: the listing ({}) differs from the documented order at position {at} ({} entries listed)", t.len(), lo.describe(), l.len())), &case);
+            }
+        }
+        report.set("rollover_tree_entries", json!(t.len()));
+    };
     let scratches: Vec<Scratch> = (0..crate::util::n_workers()).map(|_| Scratch::new("c11")).collect();
     let trees_done = AtomicUsize::new(0);
-    let tdone2 = par_for(shapes.len(), budget, |w, i| {
+    let tdone2 = std::thread::scope(|sc| {
+    let h = sc.spawn(rollover);
+    let r = par_for(shapes.len(), budget, |w, i| {
         let _g = announce(w, || format!("C11 tree {:?}", shapes[i]));
         let t = gen::tree_of(&shapes[i]);
         let hunk = [1usize, 2, 1000][i % 3];
@@ -345,6 +383,9 @@ pub fn run(report: &Report, budget: &Budget) {
             report.sample(json!({"tree": crate::tree::tree_brief(&t), "hunk": hunk}));
         }
         scratches[w].clear();
+    });
+    let _ = h.join();
+    r
     });
     report.set("trees_walked", json!(tdone2));
     report.set("trees_total", json!(shapes.len()));
@@ -376,6 +417,14 @@ pub fn replay(case: &Value) -> Vec<Violation> {
             if got != Ok(apath_cmp(a, b)) && a != b {
                 v.push(Violation::new("C11:comparison-differs-from-documented-order", format!("{a:?} {b:?} {got:?}")));
             }
+        }
+        "c11-rollover" => {
+            // the whole of run() is cheap enough; only the rollover block reports this kind
+            let r = Report::new("C11", "quick", "model_checking");
+            let b = Budget::new(600);
+            run(&r, &b);
+            v = Vec::new();
+            eprintln!("(c11-rollover: re-ran the C11 check; violations, if any, are printed above)");
         }
         "c11-tree" => {
             let t = crate::tree::tree_from_json(&case["tree"]).unwrap();
